@@ -72,14 +72,14 @@ def _relevant_nets(multinet, levelorder):
     net_names = dict()
 
     levelorder = np.array(levelorder)
-    rel_levelorder_multi = levelorder[:, 1].__eq__(multinet)
+    rel_levelorder_multi = np.array([n is multinet for n in levelorder[:, 1]], dtype=bool)
     controller = levelorder[rel_levelorder_multi, 0]
     nns = [ctrl.get_all_net_names() for ctrl in controller]
     nns = np.concatenate(nns) if len(nns) else nns
 
     for net_name in multinet['nets'].keys():
         net = multinet['nets'][net_name]
-        rel_levelorder = levelorder[:, 1].__eq__(net)
+        rel_levelorder = [n is net for n in levelorder[:, 1]]
         rel_levelorder = any(rel_levelorder)
         rel_levelorder_multi = True if net_name in nns else False
         net_names[net_name] = rel_levelorder or rel_levelorder_multi
